@@ -12,7 +12,8 @@ EXTENDS X696
 DerDevs == <<"DevDerSetNotSorted", "DevDerSetOfNotSorted", "DevDerNamedBitsNotTrimmed", "DevTagOnTaggedChoiceRefExplicit", "DevDefaultNullEncoded">>
 
 PerDevs == <<"DevPerSemiConstrainedAsUnconstrained", "DevPerChoiceIndexTextualOrder", "DevPerStringAlignIfMaxGt1",
-             "DevPerUniversalStringSizeIgnored", "DevPerEmptyOutermost", "DevDefaultNullEncoded", "DevPerNormallySmallLengthNoAlign">>
+             "DevPerUniversalStringSizeIgnored", "DevPerEmptyOutermost", "DevDefaultNullEncoded", "DevPerNormallySmallLengthNoAlign",
+             "DevPerEnumIndexBitField", "DevPerNormallySmallNumberNoAlign">>
 
 OerDevs == <<"DevOerExtensibleIntConstraintVisible", "DevOerGroupsFlattened", "DevOerFixedSizeByCharCount",
              "DevOerSetTextualOrder", "DevDefaultNullEncoded">>
@@ -60,6 +61,13 @@ AnyNode(env, T, v, dummy) ==
     [] T.k \in {"SEQOF", "SETOF"} -> Concat([j \in 1..Len(v) |-> AnyNode(env, T.e, v[j], dummy)])
     [] OTHER -> <<>>
 
+\* types whose PER encoding is the empty bit string (the implementation takes a group whose encoding
+\* is an all-zero preamble and nothing else for an absent group)
+ZeroWidth(t) ==
+  \/ t.k = "NULL"
+  \/ t.k = "ENUM" /\ ~t.ext /\ Len(t.root) = 1
+  \/ t.k = "INT" /\ t.con.f = "R" /\ ~t.con.ext /\ ~t.con.lbinf /\ ~t.con.ubinf /\ t.con.lb = t.con.ub
+
 RtClassHolds(name, env, T, v, codec) ==
   CASE name = "OidArc2Ge40" -> AnyLeaf(env, T, v, LAMBDA t, x : t.k = "OID" /\ x[1] = 2 /\ x[2] >= 40)
     [] name = "RealMinusZero" -> AnyLeaf(env, T, v, LAMBDA t, x : t.k = "REAL" /\ x.c = "NZ")
@@ -81,7 +89,7 @@ RtClassHolds(name, env, T, v, codec) ==
                     /\ Sq.adds[a].g
                     /\ \E h \in 1..Len(Sq.adds[a].ms) : x[Sq.adds[a].ms[h].n].p
                     /\ \A h \in 1..Len(Sq.adds[a].ms) :
-                          x[Sq.adds[a].ms[h].n].p => Base(env, Sq.adds[a].ms[h].t).k = "NULL"
+                          x[Sq.adds[a].ms[h].n].p => ZeroWidth(Base(env, Sq.adds[a].ms[h].t))
     [] name = "OerAdditionGroup" ->
          /\ codec = "oer"
          /\ LET ns == SeqNodes(env, T, v) IN
